@@ -8,6 +8,7 @@ import (
 	"runtime/debug"
 	"sort"
 	"strings"
+	"time"
 
 	"verifharness/internal/core"
 	"verifharness/internal/gen"
@@ -30,8 +31,9 @@ func init() {
 			}
 			return 320
 		},
-		RunCase: c06Run,
-		Witness: runSQLWitness,
+		RunCase:     c06Run,
+		Witness:     runSQLWitness,
+		CaseTimeout: 40 * time.Second,
 	})
 }
 
